@@ -414,3 +414,18 @@ Proof.
     + vm_compute. reflexivity.
 Qed.
 Print Assumptions C07_long_line_refuted.
+
+(** a first comment that reads as the [atlas:delimiter] directive (why the sqltool round trips require
+    [comment_ok2]): the golang-migrate / flyway / dbmate files are read as ONE statement. *)
+Theorem C07_comment_directive_refuted :
+  exists p, forallb (fun c => scan_closed opts_generic semi (c_cmd c) && comment_ok (c_comment c)) (p_changes p) = true
+    /\ List.length (p_changes p) = 2%nat
+    /\ (exists t, roundtrip FGolangMigrate opts_generic [] p = Some [t])
+    /\ (exists t, roundtrip FDBMate opts_generic [] p = Some [t])
+    /\ roundtrip FAtlas opts_generic [] p = planned opts_generic semi p.
+Proof.
+  exists w_directive_plan. destruct comment_directive_refuted as (H1 & H2 & H3).
+  split; [vm_compute; reflexivity|]. split; [reflexivity|]. split; [eexists; exact H1|]. split; [eexists; exact H2|].
+  rewrite H3. vm_compute. reflexivity.
+Qed.
+Print Assumptions C07_comment_directive_refuted.
